@@ -74,7 +74,7 @@ def _one(args):
     d = tempfile.mkdtemp(prefix="selfval.", dir=base)
     try:
         _copy_tree(repo, d)
-        if e["kind"] == "seed":
+        if e["kind"] in ("seed", "twinpatch"):
             p = subprocess.run(["git", "apply", "--unsafe-paths", "--directory=" + d, e["patch"]], cwd="/", stdout=subprocess.PIPE, stderr=subprocess.STDOUT, text=True)
             if p.returncode != 0:
                 # patches are relative to the repo root: apply with patch(1) semantics through git in the scratch dir
@@ -85,7 +85,7 @@ def _one(args):
             ok, why = apply_entry(d, e)
             if not ok:
                 return dict(e, status="not-applicable", detail=why)
-        if e["kind"] == "twin":
+        if e["kind"] in ("twin", "twinpatch"):
             res = {pid: _run_check(pid, d) for pid in e["pids"]}
             noisy = {pid: r for pid, r in res.items() if r[0] != 0}
             return dict(e, status="silent" if not noisy else "NOISY", detail={k: list(v) for k, v in noisy.items()})
@@ -115,6 +115,12 @@ def entries_for(pid):
                 mj = json.load(open(meta))
                 if pid in (None, mj.get("breaks_property")):
                     out.append(dict(kind="seed", pid=mj["breaks_property"], patch=patch, rule=mj["breaks_property"], desc="seeded/%s" % name, file="", func=""))
+    td = os.path.join(VERIF, "twins")
+    if os.path.isdir(td):
+        for name in sorted(os.listdir(td)):
+            patch = os.path.join(td, name, "patch.diff")
+            if os.path.exists(patch):
+                out.append(dict(kind="twinpatch", pids=[pid] if pid else ["C%02d" % i for i in range(1, 18)], patch=patch, desc="twins/%s" % name, file="", func=""))
     return out
 
 
